@@ -100,12 +100,15 @@ fn main() {
     if let Some(s) = beh["stderr_hex"].as_str() { let _ = std::io::stderr().write_all(&unhex(s)); }
     log(&scen, &format!("{{\"ev\":\"exit\",\"seed\":{},\"pid\":{}}}", seed, pid));
     if let Some(sig) = beh["self_signal"].as_i64() {
-        // die from a signal after the output has been written
-        if let Ok(s) = nix::sys::signal::Signal::try_from(sig as i32) {
-            unsafe { let _ = nix::sys::signal::signal(s, nix::sys::signal::SigHandler::SigDfl); }
-            let _ = nix::sys::signal::kill(nix::unistd::Pid::this(), s);
-            std::thread::sleep(Duration::from_secs(5));
+        // die from a signal after the output has been written (real-time signals have no name in `nix`: use kill(1))
+        match nix::sys::signal::Signal::try_from(sig as i32) {
+            Ok(s) => {
+                unsafe { let _ = nix::sys::signal::signal(s, nix::sys::signal::SigHandler::SigDfl); }
+                let _ = nix::sys::signal::kill(nix::unistd::Pid::this(), s);
+            }
+            Err(_) => { let _ = std::process::Command::new("kill").arg(format!("-{sig}")).arg(pid.to_string()).status(); }
         }
+        std::thread::sleep(Duration::from_secs(5));
     }
     std::process::exit(beh["exit"].as_i64().unwrap_or(0) as i32);
 }
